@@ -12,7 +12,7 @@ import (
 	"math"
 	"math/big"
 
-	"verif/harness/internal/core"
+	"gonum.org/v1/gonum/verifharness/internal/core"
 )
 
 // canary values placed where a routine must not read or write.
